@@ -125,6 +125,32 @@ def mutate(rnd, t):
     return t + rnd.choice([')', ' ', 'x', '(', ', 1)'])
 
 
+def history_independence(res, rnd):
+    """decoding a line must not depend on the lines decoded and resolved before it: lines are fed to a
+    connection (so that resolving happens, e.g. wl_registry.bind typing its new id) and decoded again later"""
+    from core import ConnectionManager
+    import sessioncheck
+    n = 60 if res.tier == 'quick' else 2000
+    for _ in range(n):
+        case = sessioncheck.build_case(rnd, n_events=40, chatter=0.0, n_conns=rnd.choice([1, 2, 3]))
+        lines = [e[1] for e in case['impl_events'] if e[0] == 'line']
+        first = [impl_decode(l) for l in lines]
+        # now run the whole log through the pipeline (resolves every message), then decode again
+        try:
+            sessioncheck.run_impl(case)
+        except Exception:
+            pass
+        second = [impl_decode(l) for l in lines]
+        res.evaluations += 1
+        for l, a, b in zip(lines, first, second):
+            if a != b:
+                res.disagree('decoding a line depends on what was decoded/resolved before', dict(line=l, log=lines[:40]), a, b,
+                             sig={'entry': 'decode-history', 'line': l}, theorem='C01_decode_render (decoding is a function of the line)')
+                break
+        else:
+            res.nontriv(('hist', tuple(lines[:3])))
+
+
 def run(res):
     rnd = random.Random(res.seed * 31337 + 1)
     n = 6000 if res.tier == 'quick' else 300000
@@ -185,6 +211,7 @@ def run(res):
             else:
                 res.count('mutated:' + m[0])
     sample_logs(res)
+    history_independence(res, rnd)
     res.rule = ('wire messages over all argument kinds in all positions (0..20 args, 32-bit boundary integers, 24.8 fixed values incl. rounding ties, '
                 'strings with commas/brackets/parentheses/braces/embedded message text, queue and connection tags) rendered by the model in old / current / mixed dialects '
                 'and decoded by /repo; plus mutated lines (deletion, duplication, truncation, insertion, prefixes) compared with the Decode model; '
